@@ -29,7 +29,9 @@ CHECKS = {
  "C04": (O, "Bounded/exhaustive stand-in only: all control skeletons of <= 5 items (every label assignment) and 3000 generated programs: mirror, closure, partition, single entry/exit, "
             "bz/bnz successor order, idx, and the walk property against spec/avm.py runs. The four passes are not under contract (heap-mutating loops).",
             "exhaustive small-scope native check against an independent CFG oracle"),
- "C05": (O, "Bounded stand-in only: subroutine tables, call sites, return points, call-graph export recomputed independently on call-structure programs.",
+ "C05": (O, "The observation functions the analyses use are under contract (next/prev_blocks_global, leaf_block_global, is_callsub/is_retsub_block, is_sub_return_point, callsub_block: "
+            "verified structural clauses); the construction of the tables (parser passes, Subroutine, Function) is not: bounded stand-in recomputing subroutine tables, call sites, return points "
+            "and the call-graph export independently on call-structure programs.",
             "bounded native check against an independent oracle"),
  "C06": (P, "Proved: _get_asserted_int_values (bag semantics, frame: the universal list is not modified), _get_asserted_groupsizes / _groupindices sound and exact in both operand orders "
             "(finding D1 carved out), _get_asserted generic, the engine equations (see C01) incl. checks_group_size. Per-block statement over whole runs: run-time engine contracts "
@@ -51,7 +53,8 @@ CHECKS = {
             "Stack.pop_n_values / construct_stack_ast are not under contract: bounded stackcheck.",
             "contract-based deductive verification (pyvc): table obligations"),
  "C12": (O, "Bounded stand-in only: construct_function on generated programs x dispatch prefixes (isomorphism for [B0], error blocks, contract graph unchanged, runs).", "bounded native check"),
- "C13": (O, "validated_in_block is proved exact (own view, view at the given absolute index, or the view at every possible own index) against an uninterpreted checks_field; the group "
+ "C13": (O, "contract_checks_its_field / _txn_at_absolute_index / _using_relative_index are proved exact over the leaf blocks of the global graph (absolute_context, relative_context, "
+            "gtxn_context under contract); validated_in_block is proved exact (own view, view at the given absolute index, or the view at every possible own index) against an uninterpreted checks_field; the group "
             "drivers are not under contract: generated group configurations vs brute-force group semantics with spec/avm.py (bounded).",
             "bounded native check against brute-force group semantics (+ one function under deductive contract)"),
  "C14": (P, "Proved: frame obligations of every function under contract (no write to objects existing at entry beyond `modifies`; syntactic in-place mutation of parameters is an obligation), "
